@@ -68,10 +68,10 @@ def run(ctx):
                 for st in g.blocks[bi]['s']:
                     rv = st.get('rv')
                     if rv and rv['k'] == 'bin' and rv['op'] in ('Le', 'Lt', 'Ge', 'Gt'):
-                        for o in rv['a']:
+                        for side, o in enumerate(rv['a']):
                             src = g.origin(o)
                             if src[0] == 'local' and any(isinstance(pp, dict) and pp.get('n') == 'seq' and pp.get('o') == 'rip_kernel::Event' for pp in src[2]):
-                                seqcmp.append((g, st.get('ln')))
+                                seqcmp.append((g, st.get('ln'), rv['op'], side))
                     # a closure capturing &event.seq whose body compares its upvar
                     if rv and rv['k'] == 'agg' and rv.get('ak') == 'closure':
                         cap = False
@@ -84,14 +84,22 @@ def run(ctx):
                             for b2 in inner.reachable():
                                 for s2 in inner.blocks[b2]['s']:
                                     r2 = s2.get('rv')
-                                    if r2 and r2['k'] == 'bin' and r2['op'] in ('Le', 'Lt', 'Ge', 'Gt') and any(
-                                            (inner.origin(o2)[0] == 'local' and inner.origin(o2)[1] == 1) for o2 in r2['a']):
-                                        seqcmp.append((inner, s2.get('ln')))
+                                    if r2 and r2['k'] == 'bin' and r2['op'] in ('Le', 'Lt', 'Ge', 'Gt'):
+                                        for side, o2 in enumerate(r2['a']):
+                                            if inner.origin(o2)[0] == 'local' and inner.origin(o2)[1] == 1:
+                                                seqcmp.append((inner, s2.get('ln'), r2['op'], side))
             for c in g.calls(r'PartialEq(::|.*>::)(ne|eq)$'):
                 for a in c.args:
                     src = g.origin(a)
                     if src[0] == 'local' and any(isinstance(pp, dict) and pp.get('n') == 'session_id' and pp.get('o') == 'rip_kernel::Event' for pp in src[2]):
                         idcmp.append((g, c.line))
         ctx.ob('C06.3', f, 'seq-filter', bool(seqcmp), 'live frames are filtered by comparing Event.seq with the last history seq: %s' % (bool(seqcmp)), line=seqcmp[0][1] if seqcmp else f.line)
+        for (g2, ln, op, side) in seqcmp:
+            # the boundary frame (seq == last history seq) is in the history and must not come again:
+            # the test must separate `seq <= last` from `seq > last`
+            good = op in (('Le', 'Gt') if side == 0 else ('Ge', 'Lt'))
+            ctx.ob('C06.3', f, 'seq-filter-boundary', good, 'the filter compares event.seq %s last (%s)' % (
+                {'Le': '<=', 'Lt': '<', 'Ge': '>=', 'Gt': '>'}[op] if side == 0 else {'Le': '>=', 'Lt': '>', 'Ge': '<=', 'Gt': '<'}[op],
+                'the frame with seq == last is treated as already delivered' if good else 'OFF BY ONE: the frame with seq == last history seq is on the wrong side — it is delivered twice (or the first live frame is lost)'), line=ln)
         if any(re.search(r'ContinuityStore::replay_events$', sn.callee) for sn in snaps):
             ctx.ob('C06.3', f, 'stream-id-filter', bool(idcmp), 'the thread handler compares Event.session_id with the thread id: %s' % bool(idcmp), line=idcmp[0][1] if idcmp else f.line)
